@@ -22,11 +22,21 @@ inductive OptKind | plain | closure
 
 /-- the oracles of one run (fixed; the state never changes them) -/
 structure Cfg where
-  loss : Nat → Int → Bool → Nat → Val
+  /-- `loss_fn(residuals, funcs, coords)` of the batch: (loss id, θ, train?, draw index) -/
+  userLoss : Nat → Int → Bool → Nat → Val
   metric : Nat → Int → Bool → Nat → Val
   nMetrics : Nat
   plainStep : Nat → Int
   closureShifts : Nat → List Int
+  /-- `additional_loss(residuals, funcs, coords)` of the batch (a method of the solver: independent of `loss_fn`) -/
+  addl : Int → Bool → Nat → Val := fun _ _ _ => 0
+  /-- what `loss.backward()` of the batch adds to the `.grad` of the parameters -/
+  gradOf : Nat → Int → Bool → Nat → Int := fun _ _ _ _ => 0
+
+/-- the quantity the closure computes, back-propagates (training) and records:
+`loss = self.loss_fn(residuals, funcs, batch) + self.additional_loss(residuals, funcs, batch)`, in both phases -/
+def Cfg.loss (c : Cfg) (lossId : Nat) (θ : Int) (train : Bool) (idx : Nat) : Val :=
+  c.userLoss lossId θ train idx + c.addl θ train idx
 
 inductive Event
   | zeroGrad
@@ -207,5 +217,22 @@ def fit (c : Cfg) (sched : Nat → Nat → List Action) (call : Nat) (maxEpochs 
 def fits (c : Cfg) (sched : Nat → Nat → List Action) : Nat → List Nat → State → State
   | _, [], s => s
   | call, m :: rest, s => fits c sched (call + 1) rest (fit c sched call m s)
+
+/-! ### gradient bookkeeping, as a function of the event log
+
+`optimizer.zero_grad()` clears `.grad`; every *training* closure evaluation calls `loss.backward()`, which ADDS the
+batch gradient; validation never back-propagates; `optimizer.step` sees whatever has accumulated.  The log is
+newest-first, so the chronological fold is a structural recursion on the list. -/
+
+/-- (current `.grad`, gradients seen by the optimiser steps so far, oldest first) -/
+def gradStep (c : Cfg) (acc : Int × List Int) : Event → Int × List Int
+  | .zeroGrad => (0, acc.2)
+  | .evalLoss l θ true idx => (acc.1 + c.gradOf l θ true idx, acc.2)
+  | .step _ _ _ => (acc.1, acc.2 ++ [acc.1])
+  | _ => acc
+
+def gradTrace (c : Cfg) : List Event → Int × List Int
+  | [] => (0, [])
+  | e :: log => gradStep c (gradTrace c log) e
 
 end NdeVerif.Solver
